@@ -427,6 +427,16 @@ def rule_reset_triggers(ctx, crate, rule="R-EST-RESET-TRIGGERS"):
             sl = b.slice_args(c, [1])
             ctx.check(sl.has_call(r"std::time::Instant::now"), rule, "api-now:%s" % K.meth(api), b.name, c.loc(),
                       "reset instant is Instant::now()", "reset is given an instant that is not now()", cfg)
+    # every reset of the estimator happens "now": a reset at another instant (e.g. a start time moved into the past by
+    # with_elapsed) makes the estimator believe in a stall before the first sample
+    for cb in K.lib_bodies(crate):
+        for c in cb.calls(r"state::BarState::reset"):
+            if cb.name in ("progress_bar::ProgressBar::reset_eta", "progress_bar::ProgressBar::reset"):
+                continue
+            sl = cb.slice_args(c, [1])
+            shifted = [x.path for x in sl.calls if x.matches(r"std::time::Instant::(checked_sub|checked_add|sub|add)", r"std::ops::(Sub|Add)::.*")]
+            ctx.check(sl.has_call(r"std::time::Instant::now") and not shifted, rule, "reset-at-now:%s" % K.meth(K.owner_fn(crate, cb)), cb.name, c.loc(),
+                      "the state is reset at Instant::now()", "BarState::reset is called with an instant that is not now() (%s): the estimator's time anchors are moved" % (shifted[:1] or "no now()"), cfg)
     rb = K.find_one(ctx, crate, rule, r"state::BarState::reset")
     if rb:
         rc = rb.calls(r"state::Estimator::reset")
